@@ -14,7 +14,12 @@ use serde_json::{json, Map, Value};
 use std::io::{BufRead, BufReader, BufWriter, Write};
 use std::panic::{catch_unwind, AssertUnwindSafe};
 
+mod aead;
+mod dig;
 mod hash;
+mod kdf;
+mod macs;
+mod stream;
 
 pub type Ev = Map<String, Value>;
 
@@ -99,6 +104,14 @@ fn run_history(h: &mut Ev) {
     };
     match cls.as_str() {
         "hash" => hash::run(h, &mut evs),
+        "digest" => dig::run(h, &mut evs),
+        "mac" => macs::run(h, &mut evs),
+        "stream" => stream::run(h, &mut evs),
+        "engine" => stream::run_engine(h, &mut evs),
+        "drg" => stream::run_drg(h, &mut evs),
+        "aead" => aead::run(h, &mut evs, false),
+        "aead1" => aead::run(h, &mut evs, true),
+        "fn" => kdf::run(h, &mut evs),
         _ => {
             for e in evs.iter_mut() {
                 e.as_object_mut().unwrap().insert("out".into(), Out::Bad(format!("harness: unknown class {}", cls)).to_json());
